@@ -357,15 +357,470 @@ func gen(tier string, r *lib.Rand, emit func(string)) {
 		}
 		emit("plus " + lib.HexList(a) + " " + lib.Hex(x))
 	}
+
+	// (e) call histories over Product / Plus that keep every result alive (result independence):
+	// every history of up to 3 (4) steps over the small chains, and random longer ones
+	hb := [][]int64{{1, 2}, {1, 2, 3}, {1, 2, 4}, {1, 2, 3, 6}}
+	hdepth, hlen := 3, 4
+	if tier == "thorough" {
+		hdepth, hlen = 4, 4
+	}
+	for n := 1; n <= hlen; n++ {
+		for _, a := range ascChains(n) {
+			var hrec func(steps []string)
+			hrec = func(steps []string) {
+				if len(steps) >= 2 {
+					emit("phist " + enc64(a) + " " + strings.Join(steps, ";"))
+				}
+				if len(steps) == hdepth {
+					return
+				}
+				for src := 0; src <= len(steps); src++ {
+					if len(steps) >= 2 && src != 0 && src != len(steps) {
+						continue // beyond two steps: the original and the newest chain only
+					}
+					for _, b := range hb {
+						hrec(append(append([]string{}, steps...), fmt.Sprintf("p%d:%s", src, enc64(b))))
+					}
+					for _, x := range a {
+						hrec(append(append([]string{}, steps...), fmt.Sprintf("l%d:%x", src, x)))
+					}
+				}
+			}
+			hrec(nil)
+		}
+	}
+	emit("phist - p0:1,2;p0:1,2")
+	emit("phist 1,2 p0:-;l0:1")
+	emit("phist 1,2 p0:1,2;p1:-")
+	for t := 0; t < nrand; t++ {
+		mk := func(max int) []*big.Int {
+			n := r.Range(1, max)
+			c := []*big.Int{big.NewInt(1)}
+			for len(c) < n {
+				i := len(c) - 1
+				j := r.Intn(len(c))
+				if r.Bool() {
+					j = i
+				}
+				c = append(c, new(big.Int).Add(c[i], c[j]))
+			}
+			return c
+		}
+		a := mk(12)
+		k := r.Range(2, 8)
+		steps := make([]string, k)
+		for q := range steps {
+			src := 0
+			if r.Bool() {
+				src = r.Intn(q + 1)
+			}
+			if r.Chance(2, 3) {
+				steps[q] = fmt.Sprintf("p%d:%s", src, lib.HexList(mk(6)))
+			} else {
+				steps[q] = fmt.Sprintf("l%d:%s", src, lib.Hex(a[r.Intn(len(a))]))
+			}
+		}
+		emit("phist " + lib.HexList(a) + " " + strings.Join(steps, ";"))
+	}
+}
+
+// ---------- neighbours (hunt mode) ----------
+
+func perturbSeq(s string, r *lib.Rand) string {
+	xs := lib.ParseHexList(s)
+	if len(xs) == 0 {
+		return "1"
+	}
+	switch r.Intn(4) {
+	case 0:
+		i := r.Intn(len(xs))
+		xs[i] = new(big.Int).Add(xs[i], big.NewInt(int64(r.Range(-2, 2))))
+	case 1:
+		i, j := r.Intn(len(xs)), r.Intn(len(xs))
+		xs[i], xs[j] = xs[j], xs[i]
+	case 2:
+		i, j := r.Intn(len(xs)), r.Intn(len(xs))
+		xs = append(xs, new(big.Int).Add(xs[i], xs[j]))
+	default:
+		xs = xs[:len(xs)-1]
+	}
+	return lib.HexList(xs)
+}
+
+func perturbOps(s string, r *lib.Rand) string {
+	p := decOps(s)
+	if len(p) == 0 || r.Chance(1, 5) {
+		k := len(p)
+		p = append(p, addchain.Op{I: r.Intn(k + 1), J: r.Intn(k + 1)})
+		return encOps(p)
+	}
+	k := r.Intn(len(p))
+	d := r.Range(-1, 1)
+	if r.Bool() {
+		p[k].I += d
+		if p[k].I < 0 {
+			p[k].I = 0
+		}
+	} else {
+		p[k].J += d
+		if p[k].J < 0 {
+			p[k].J = 0
+		}
+	}
+	return encOps(p)
+}
+
+func neighbours(c string, r *lib.Rand, emit func(string)) {
+	f := strings.Split(c, " ")
+	for t := 0; t < 12; t++ {
+		switch f[0] {
+		case "build":
+			cs := decCalls(f[1])
+			if len(cs) == 0 || r.Chance(1, 5) {
+				cs = append(cs, call{"ADS"[r.Intn(3)], r.Range(-1, 4), r.Range(0, 3)})
+			} else {
+				k := r.Intn(len(cs))
+				if r.Bool() {
+					cs[k].i += r.Range(-1, 1)
+				} else {
+					cs[k].j += r.Range(-1, 1)
+					if cs[k].kind == 'S' && cs[k].j < 0 {
+						cs[k].j = 0
+					}
+				}
+			}
+			emit("build " + encCalls(cs))
+		case "count", "reads", "deps", "evaluate":
+			emit(f[0] + " " + perturbOps(f[1], r))
+		case "product":
+			if r.Bool() {
+				emit("product " + perturbSeq(f[1], r) + " " + f[2])
+			} else {
+				emit("product " + f[1] + " " + perturbSeq(f[2], r))
+			}
+		case "plus":
+			if r.Bool() {
+				emit("plus " + perturbSeq(f[1], r) + " " + f[2])
+			} else {
+				a := lib.ParseHexList(f[1])
+				if len(a) > 0 {
+					emit("plus " + f[1] + " " + lib.Hex(a[r.Intn(len(a))]))
+				}
+			}
+		case "phist":
+			steps := strings.Split(f[2], ";")
+			switch r.Intn(3) {
+			case 0:
+				emit("phist " + perturbSeq(f[1], r) + " " + f[2])
+			case 1:
+				k := r.Intn(len(steps))
+				colon := strings.IndexByte(steps[k], ':')
+				if steps[k][0] == 'p' {
+					steps[k] = steps[k][:colon+1] + perturbSeq(steps[k][colon+1:], r)
+				} else {
+					steps[k] = fmt.Sprintf("%s%x", steps[k][:colon+1], r.Range(1, 9))
+				}
+				emit("phist " + f[1] + " " + strings.Join(steps, ";"))
+			default:
+				steps = append(steps, fmt.Sprintf("p%d:1,2,%x", r.Intn(len(steps)+1), r.Range(3, 4)))
+				emit("phist " + f[1] + " " + strings.Join(steps, ";"))
+			}
+		}
+	}
+}
+
+// ---------- storage shapes ----------
+//
+// Go slices alias: a function that appends into (or writes through) an argument can corrupt
+// storage the caller still holds even when the returned value looks right.  Every case is therefore
+// also run with its chain / program arguments laid out differently:
+//   shape 0  exact capacity (fresh slice)
+//   shape 1  spare capacity: make(len, cap+3), the tail holds nil / zero ops
+//   shape 2  prefix full[:len] of a longer chain or program with live elements behind it
+//   shape 3  like 1, and the second chain argument re-uses the first one's *big.Int elements
+// and the watcher checks afterwards that the whole backing array (up to cap) and every element value
+// are what they were.  The result line must not depend on the shape.
+
+type watch struct {
+	fulls [][]*big.Int // full-capacity views of every chain handed out
+	ptrs  [][]*big.Int // element pointers at hand-out time
+	vals  [][]*big.Int // element values at hand-out time (nil stays nil)
+	pf    []addchain.Program
+	pv    []addchain.Program
+}
+
+// chain lays xs out in the given shape; with shape 3 its elements are first replaced by the
+// equal-valued element objects of shareWith.
+func (w *watch) chain(xs []*big.Int, shape int, shareWith ...[]*big.Int) []*big.Int {
+	if shape == 3 {
+		xs = append([]*big.Int{}, xs...)
+		for _, o := range shareWith {
+			share(xs, o)
+		}
+	}
+	var full []*big.Int
+	switch shape {
+	case 1, 3:
+		full = make([]*big.Int, len(xs)+3)
+		copy(full, xs)
+	case 2:
+		full = make([]*big.Int, len(xs), len(xs)+3)
+		copy(full, xs)
+		for k := int64(0); k < 3; k++ {
+			full = append(full, big.NewInt(1000003+k))
+		}
+	default:
+		full = make([]*big.Int, len(xs))
+		copy(full, xs)
+	}
+	arg := full[:len(xs):len(full)]
+	if w != nil {
+		w.fulls = append(w.fulls, full)
+		w.ptrs = append(w.ptrs, append([]*big.Int{}, full...))
+		vs := make([]*big.Int, len(full))
+		for i, x := range full {
+			if x != nil {
+				vs[i] = new(big.Int).Set(x)
+			}
+		}
+		w.vals = append(w.vals, vs)
+	}
+	return arg
+}
+
+func (w *watch) prog(p addchain.Program, shape int) addchain.Program {
+	var full addchain.Program
+	switch shape {
+	case 1, 3:
+		full = make(addchain.Program, len(p)+3)
+		copy(full, p)
+	case 2:
+		full = append(append(addchain.Program{}, p...), addchain.Op{I: 77, J: 78}, addchain.Op{I: 79, J: 80}, addchain.Op{I: 81, J: 82})
+	default:
+		full = append(addchain.Program{}, p...)
+	}
+	arg := full[:len(p):len(full)]
+	if w != nil {
+		w.pf = append(w.pf, full)
+		w.pv = append(w.pv, append(addchain.Program{}, full...))
+	}
+	return arg
+}
+
+// share makes b re-use a's element objects wherever the values coincide.
+func share(b, a []*big.Int) {
+	for i, y := range b {
+		for _, x := range a {
+			if y != nil && x != nil && x.Cmp(y) == 0 {
+				b[i] = x
+				break
+			}
+		}
+	}
+}
+
+func (w *watch) check() string {
+	for n, full := range w.fulls {
+		for i := range full {
+			if full[i] != w.ptrs[n][i] {
+				return fmt.Sprintf("argument storage overwritten: slot %d of the backing array of chain argument %d now holds another element", i, n)
+			}
+			if full[i] != nil && full[i].Cmp(w.vals[n][i]) != 0 {
+				return fmt.Sprintf("argument element modified in place: slot %d of chain argument %d", i, n)
+			}
+		}
+	}
+	for n, full := range w.pf {
+		for i := range full {
+			if full[i] != w.pv[n][i] {
+				return fmt.Sprintf("argument storage overwritten: op slot %d of program argument %d", i, n)
+			}
+		}
+	}
+	return ""
+}
+
+func panicClass(v interface{}) string {
+	if e, ok := v.(runtime.Error); ok {
+		m := e.Error()
+		if strings.Contains(m, "index out of range") || strings.Contains(m, "slice bounds out of range") {
+			return "index"
+		}
+	}
+	return "other"
+}
+
+func safely(f func() string) (res string) {
+	defer func() {
+		if v := recover(); v != nil {
+			res = "panic " + panicClass(v)
+		}
+	}()
+	return f()
+}
+
+// shapeCheck re-runs the case in other storage shapes: same result line, no storage touched.
+func shapeCheck(c, res string, shapes []int) string {
+	for _, sh := range shapes {
+		w := &watch{}
+		got := safely(func() string { return runShaped(c, sh, w) })
+		if got != res {
+			return fmt.Sprintf("result depends on how the argument is stored (shape %d): %s instead of %s", sh, got, res)
+		}
+		if msg := w.check(); msg != "" {
+			return fmt.Sprintf("%s (shape %d)", msg, sh)
+		}
+	}
+	return ""
+}
+
+func pickShape(c string) int {
+	h := uint32(2166136261)
+	for i := 0; i < len(c); i++ {
+		h = (h ^ uint32(c[i])) * 16777619
+	}
+	return 1 + int(h%3)
+}
+
+// ---------- call histories over Product / Plus ----------
+// phist <a> <steps>; steps joined by ';': p<src>:<b> = Product(chain src, b), l<src>:<x> = Plus(chain src, x);
+// chain 0 is a, chain k the result of step k.  All results are read only after the last call.
+
+type hstep struct {
+	kind byte
+	src  int
+	b    []*big.Int
+	x    *big.Int
+}
+
+func decSteps(s string) []hstep {
+	var out []hstep
+	for _, f := range strings.Split(s, ";") {
+		colon := strings.IndexByte(f, ':')
+		st := hstep{kind: f[0], src: lib.Atoi(f[1:colon])}
+		if st.kind == 'p' {
+			st.b = lib.ParseHexList(f[colon+1:])
+		} else {
+			st.x = lib.ParseHex(f[colon+1:])
+		}
+		out = append(out, st)
+	}
+	return out
+}
+
+// runHistory performs the calls; chains[0] is a, chains[k] the live result of step k.
+func runHistory(a []*big.Int, steps []hstep, shape int, w *watch, after func(k int, chains [][]*big.Int)) [][]*big.Int {
+	chains := [][]*big.Int{w.chain(a, shape)}
+	for k, st := range steps {
+		left := chains[st.src]
+		var r addchain.Chain
+		if st.kind == 'p' {
+			b := w.chain(st.b, shape, left)
+			r = addchain.Product(left, b)
+		} else {
+			x := st.x
+			if shape == 3 {
+				xs := []*big.Int{x}
+				share(xs, left)
+				x = xs[0]
+			}
+			r = addchain.Plus(left, x)
+		}
+		chains = append(chains, r)
+		if after != nil {
+			after(k+1, chains)
+		}
+	}
+	return chains
+}
+
+func encChains(cs [][]*big.Int) string {
+	ss := make([]string, len(cs))
+	for i, c := range cs {
+		ss[i] = lib.HexList(c)
+	}
+	return strings.Join(ss, ";")
+}
+
+func oracleHistory(a []*big.Int, steps []hstep) string {
+	for shape := 0; shape <= 3; shape++ {
+		w := &watch{}
+		var snaps [][]*big.Int // value of every chain right after it was produced
+		msg := ""
+		func() {
+			defer func() {
+				if v := recover(); v != nil {
+					msg = fmt.Sprintf("history panicked: %v", v)
+				}
+			}()
+			snaps = append(snaps, lib.CloneInts(a))
+			chains := runHistory(a, steps, shape, w, func(k int, chains [][]*big.Int) {
+				snaps = append(snaps, lib.CloneInts(chains[k]))
+				st := steps[k-1]
+				left := snaps[st.src]
+				if !(isChain(left) && isAsc(left)) {
+					return
+				}
+				got := chains[k]
+				if st.kind == 'p' && isChain(st.b) && isAsc(st.b) {
+					if !isChain(got) || !isAsc(got) || got[len(got)-1].Cmp(new(big.Int).Mul(left[len(left)-1], st.b[len(st.b)-1])) != 0 {
+						msg = fmt.Sprintf("step %d: product is not a valid ascending chain ending at the product of the ends", k)
+					}
+				}
+				if st.kind == 'l' {
+					mem := false
+					for _, y := range left {
+						mem = mem || y.Cmp(st.x) == 0
+					}
+					if mem && (!isChain(got) || got[len(got)-1].Cmp(new(big.Int).Add(left[len(left)-1], st.x)) != 0) {
+						msg = fmt.Sprintf("step %d: plus is not a valid chain ending at end + x", k)
+					}
+				}
+			})
+			if msg != "" {
+				return
+			}
+			for k, c := range chains {
+				if !lib.EqualInts(c, snaps[k]) {
+					what := fmt.Sprintf("the result of step %d", k)
+					if k == 0 {
+						what = "the first argument"
+					}
+					msg = fmt.Sprintf("%s changed after later calls: %s -> %s", what, lib.HexList(snaps[k]), lib.HexList(c))
+					return
+				}
+			}
+			msg = w.check()
+		}()
+		if msg != "" {
+			if strings.HasPrefix(msg, "history panicked") {
+				expect := len(a) == 0
+				for _, st := range steps {
+					expect = expect || (st.kind == 'p' && len(st.b) == 0)
+				}
+				if expect {
+					return ""
+				}
+			}
+			return fmt.Sprintf("%s (storage shape %d)", msg, shape)
+		}
+	}
+	return ""
 }
 
 // ---------- implementation ----------
 
-func run(c string) string {
+func run(c string) string { return runShaped(c, 0, nil) }
+
+func runShaped(c string, shape int, w *watch) string {
 	f := strings.Split(c, " ")
 	switch f[0] {
 	case "build":
 		p := addchain.Program{}
+		if shape != 0 {
+			p = make(addchain.Program, 0, 2+shape)
+		}
 		items := []string{}
 		for _, cl := range decCalls(f[1]) {
 			idx, err := apply(&p, cl)
@@ -381,22 +836,33 @@ func run(c string) string {
 		}
 		return "ok " + it + " " + encOps(p)
 	case "count":
-		p := decOps(f[1])
+		p := w.prog(decOps(f[1]), shape)
 		d, a := p.Count()
 		if p.Doubles() != d || p.Adds() != a {
 			return "ok inconsistent"
 		}
 		return fmt.Sprintf("ok %d %d", d, a)
 	case "reads":
-		return "ok " + lib.IntList(decOps(f[1]).ReadCounts())
+		return "ok " + lib.IntList(w.prog(decOps(f[1]), shape).ReadCounts())
 	case "deps":
-		return "ok " + lib.HexList(decOps(f[1]).Dependencies())
+		return "ok " + lib.HexList(w.prog(decOps(f[1]), shape).Dependencies())
 	case "evaluate":
-		return "ok " + lib.HexList(decOps(f[1]).Evaluate())
+		return "ok " + lib.HexList(w.prog(decOps(f[1]), shape).Evaluate())
 	case "product":
-		return "ok " + lib.HexList(addchain.Product(lib.ParseHexList(f[1]), lib.ParseHexList(f[2])))
+		a := w.chain(lib.ParseHexList(f[1]), shape)
+		b := w.chain(lib.ParseHexList(f[2]), shape, a)
+		return "ok " + lib.HexList(addchain.Product(a, b))
 	case "plus":
-		return "ok " + lib.HexList(addchain.Plus(lib.ParseHexList(f[1]), lib.ParseHex(f[2])))
+		a, x := w.chain(lib.ParseHexList(f[1]), shape), lib.ParseHex(f[2])
+		if shape == 3 {
+			xs := []*big.Int{x}
+			share(xs, a)
+			x = xs[0]
+		}
+		return "ok " + lib.HexList(addchain.Plus(a, x))
+	case "phist":
+		chains := runHistory(lib.ParseHexList(f[1]), decSteps(f[2]), shape, w, nil)
+		return "ok " + encChains(chains[1:])
 	}
 	panic("unknown case " + c)
 }
@@ -466,7 +932,16 @@ func sameProg(a, b addchain.Program) bool {
 
 func oracleBuild(cs []call) string {
 	p := addchain.Program{}
+	var views, snaps []addchain.Program // slice headers taken after each call, and their contents then
+	defer func() { views, snaps = nil, nil }()
 	for n, c := range cs {
+		views = append(views, p)
+		snaps = append(snaps, append(addchain.Program{}, p...))
+		for v := range views {
+			if !sameProg(views[v], snaps[v]) {
+				return fmt.Sprintf("call %d rewrote operations of the program as it was before call %d", n-1, v)
+			}
+		}
 		before := append(addchain.Program{}, p...)
 		idx, err := apply(&p, c)
 		l := len(before)
@@ -555,8 +1030,24 @@ func isChainLoose(c []*big.Int, p addchain.Program) bool {
 }
 
 func oracle(c, res string) string {
+	if msg := oracle1(c, res); msg != "" {
+		return msg
+	}
 	f := strings.Split(c, " ")
 	switch f[0] {
+	case "phist":
+		return "" // oracleHistory already ran every shape
+	case "product", "plus":
+		return shapeCheck(c, res, []int{1, 2, 3})
+	}
+	return shapeCheck(c, res, []int{pickShape(c)})
+}
+
+func oracle1(c, res string) string {
+	f := strings.Split(c, " ")
+	switch f[0] {
+	case "phist":
+		return oracleHistory(lib.ParseHexList(f[1]), decSteps(f[2]))
 	case "build":
 		if !strings.HasPrefix(res, "ok ") {
 			return "builder failed: " + res
@@ -710,7 +1201,7 @@ func nontrivial(c, res string) bool {
 	case "build":
 		// at least one accepted and the line is not only rejections
 		return strings.Count(f[1], ";") >= 1 && !strings.HasSuffix(res, " -")
-	case "product", "plus":
+	case "product", "plus", "phist":
 		return strings.HasPrefix(res, "ok ") && strings.Count(f[1], ",") >= 1
 	}
 	return strings.HasPrefix(res, "ok ") && strings.Count(f[1], ",") >= 1
@@ -723,14 +1214,7 @@ func main() {
 		Run:        run,
 		Oracle:     oracle,
 		Nontrivial: nontrivial,
-		PanicClass: func(v interface{}) string {
-			if e, ok := v.(runtime.Error); ok {
-				m := e.Error()
-				if strings.Contains(m, "index out of range") || strings.Contains(m, "slice bounds out of range") {
-					return "index"
-				}
-			}
-			return "other"
-		},
+		PanicClass: panicClass,
+		Neighbours: neighbours,
 	})
 }
